@@ -21,7 +21,7 @@ from decimal import Decimal
 from .py2coq import Untranslatable, fail, get_function, strip_doc
 
 HEADER = """(* GENERATED on every run from /repo by translate/gen_loop.py -- do not edit *)
-From Coq Require Import ZArith Bool.
+From Coq Require Import ZArith Bool String.
 From MV Require Import Model.LoopNum.
 
 Section GenLoop.
@@ -353,4 +353,10 @@ def generate(repo):
     out.append(f"Definition cel_iter_small_n : nat := {c}.")
     out.append(f"Definition cel_iter_small_returns : bool := {'true' if ret else 'false'}.")
     out.append(FOOTER)
+    # special_el3.py (el3 / el3_angle and friends, used by the CylinderSegment core) is not modelled: it is PINNED.
+    # sha256 of the ast dump (comments / formatting do not matter, any change of code or docstrings does)
+    import hashlib
+    el3 = os.path.join(repo, "magpylib/_src/fields/special_el3.py")
+    fp = hashlib.sha256(ast.dump(ast.parse(open(el3).read())).encode()).hexdigest()
+    out.append(f'Definition special_el3_fingerprint : string := "{fp}"%string.\n')
     return "\n".join(out)
